@@ -1,5 +1,7 @@
 """C12 deductive part: BufferedSocket.recv / recv_size / peek / recv_close as conservation equations over a ghost socket
-(contracts/bsock.py): every chunking of the stream and every placement of socket timeouts is one symbolic execution."""
+(contracts/bsock.py): every chunking of the stream and every placement of socket timeouts is one symbolic execution; and
+send / sendall / flush / buffer as the conservation equation  wire ++ buffered == everything handed in  under arbitrary
+partial sends, timeouts and socket errors."""
 from pyvc import driver
 from contracts import bsock as m
 
@@ -14,4 +16,9 @@ def run(ded, repo, tier):
     ded.assume('"same values as when the whole stream arrives at once" follows from conservation + the length clause by prefix '
                'uniqueness (a ++ b == c ++ d and |a| == |c| imply a == c), which is not a separate obligation')
     ded.trust('not under contract (bounded only): recv_until (rolling search offset: the string lemma is undecided by z3/cvc5), '
-              'send/sendall/flush/buffer, NetstringSocket')
+              'NetstringSocket; the byte count returned by send() is not constrained (not in the statement)')
+    ded.trust('socket contract: send(data) puts some prefix data[:k], 0 <= k <= len(data), on the wire and returns k, or raises '
+              'socket.timeout / OSError having sent nothing')
+    ded.assume('the send buffer (a list of byte strings) is tracked through its ghost concatenation: list.append, lst[:] = [x], '
+               'a one-element item store and b"".join([s for s in lst if s]) are encoded by their effect on it; the comprehension '
+               'result is a fresh list of unknown items with the same concatenation')
